@@ -55,7 +55,9 @@ def trace_part(chk, tier):
     ndocs, nsel = (120, 14) if tier == 'quick' else (1200, 20)
     jobs = []
     for k in range(ndocs):
-        d = gen.rand_doc(rng, nmax=16 if tier == 'quick' else 24, kinds=('e', 'e', 'e', 'e', 't', 'c'))
+        # every third document: element names that differ only in case (the same type in HTML, different types in XML)
+        d = gen.rand_doc(rng, nmax=16 if tier == 'quick' else 24, kinds=('e', 'e', 'e', 'e', 't', 'c'),
+                         names=['a', 'A', 'b', 'B'] if k % 3 == 1 else gen.NAMES, xml=(k % 6 == 1) or None)
         asts = []
         for _ in range(nsel):
             of = [gen.rand_complex(rng, 1, maxc=1)] if rng.random() < 0.3 else []
